@@ -572,3 +572,14 @@ func (s *UtxoStore) VerifWF() bool { return s != nil && s.bucketMeta != nil }
 //@   modifies *
 //@   ignore Amount).Add
 //@   at "addrV = valueAddressRecord(addrRecord)" assert[C12] addrV == nil || readAddressHeight(addrV) == 0
+
+// ---- C01 (rollback lemma): when a rolled-back transaction's debit is undone, the unspent marker re-created for the
+// credit it had spent carries the block of that credit (bytes 32..72 of the credit key), never anything else
+//@ func (*TxStore).Rollback
+//@   props C01
+//@   nopanic off
+//@   requires s != nil && s.bucketMeta != nil && s.ksmgr != nil && s.utxoStore != nil && tx != nil
+//@   modifies *
+//@   only fetchNsUnspentValueFromRawCredit
+//@   dead returns 1
+//@   at "err = putRawUnspent(nsUnspent, canonicalUnspentKey(ma.Account(), &prevOut.Hash, prevOut.Index), unspentVal)" assert[C01] len(unspentVal) == 40 && len(credKey) >= 72 && bytesEq(unspentVal, 0, credKey, 32, 40)
